@@ -10,6 +10,8 @@ import EpModel.Driver.Frag
 import EpModel.Driver.Io
 import EpModel.Driver.View
 import EpModel.Driver.Enc
+import EpModel.Driver.EncLink
+import EpModel.Driver.EncNet
 import EpModel.Driver.Set
 import EpModel.Driver.Build
 import EpModel.Driver.Dec
